@@ -248,6 +248,11 @@ func (c *kCtx) transitions(k *kSys, a kAction, before []string, report bool, his
 				return false
 			}
 		}
+		if ob == "plotting" && (na == "ready" || na == "mining") && k.stopped[i] && k.stopProgress[i] >= 100 {
+			// the plot had already finished when the stop came in (the keeper had not yet run step 3): nothing was
+			// plotted after the stop, the space is complete and ready is where a complete space belongs
+			k.stopped[i] = false
+		}
 		if ob == "plotting" && (na == "ready" || na == "mining") && k.stopped[i] {
 			if report {
 				c.viol("stopped-space-plot-completed", "stop-before-plot-start", fmt.Sprintf("workspace %s was stopped while marked plotting, yet its plot ran to completion and it became %s", kNames[i], na), hist, op)
@@ -408,6 +413,9 @@ func (c *kCtx) try1(hist []int, op int) (string, []int, bool, bool) {
 						if last.Err == nil {
 							k.stopped[w] = true
 							k.stopVia[w] = k.outstanding(w, blocked)
+							k.db[w].mu.Lock()
+							k.stopProgress[w] = k.db[w].progress
+							k.db[w].mu.Unlock()
 						}
 					}
 				}
